@@ -641,7 +641,7 @@ class Emit:
                 self.copy_key('i', acc)
             self.step('pypyr.steps.py', {'py': code}, body, foreach=items)
         elif kind == 'retry':         # container-valued retry inputs; the first attempt(s) fail
-            cands = [p for p in lists if len(p) == 1]
+            cands = [p for p in lists if len(p) == 1 and p[0] not in ('whileCounter', 'retryCounter', 'i')]
             if not cands:
                 return self.emit('append_ctx')
             K = rng.choice(cands)[0]
@@ -652,7 +652,7 @@ class Emit:
             self.step('pypyr.steps.py', {'py': code}, lambda: self.append([K], self.shadow['retryCounter']),
                       retry=retry, retry_fail_until=until)
         elif kind == 'while':
-            cands = [p for p in lists if len(p) == 1]
+            cands = [p for p in lists if len(p) == 1 and p[0] not in ('whileCounter', 'retryCounter', 'i')]
             if not cands:
                 return self.emit('append_ctx')
             K = rng.choice(cands)[0]
@@ -898,6 +898,20 @@ class Sandbox:
         self.config.vars, self.config.shortcuts = vars_, shortcuts
         return self.dir
 
+    def ensure_vobs(self):
+        if self.dir is None:
+            self.install({}, {})
+        self.admin.clear_all()
+        self.vobs.HOOK = None
+        self.config.vars, self.config.shortcuts = {}, {}
+
+    def scratch(self):
+        """A new empty directory for a case that lays out its own tree."""
+        self.n += 1
+        d = self.root / f'o{self.n}'
+        d.mkdir()
+        return d
+
     def load(self, names):
         """Every pipeline through the real loader and caches (no step runs): name -> definition body."""
         from pypyr.cache.loadercache import loader_cache
@@ -955,6 +969,31 @@ class Sandbox:
         logging.disable(disabled)
         sys.modules.pop('vobs', None)
         shutil.rmtree(self.root, ignore_errors=True)
+
+
+class CwdControl:
+    """pypyr fixes its working directory when `pypyr.config` is imported (`CWD`, and
+    `pypyr.loaders.file.cwd_pipelines_dir` derived from it). The harness points both at a scratch
+    directory from outside for the duration of one case. `ok` is False if that is no longer possible."""
+
+    def __init__(self, cwd):
+        import pypyr.config
+        import pypyr.loaders.file
+        self.cfgmod, self.filemod, self.cwd = pypyr.config, pypyr.loaders.file, Path(cwd)
+        self.ok = hasattr(self.cfgmod, 'CWD') and hasattr(self.filemod, 'cwd_pipelines_dir')
+
+    def __enter__(self):
+        if self.ok:
+            self.saved = (self.cfgmod.CWD, self.filemod.cwd_pipelines_dir)
+            self.cfgmod.CWD = self.cwd
+            self.filemod.cwd_pipelines_dir = self.cwd.joinpath(self.cfgmod.config.pipelines_subdir)
+            self.ok = self.cfgmod.config.cwd == self.cwd
+        return self
+
+    def __exit__(self, *exc):
+        if hasattr(self, 'saved'):
+            self.cfgmod.CWD, self.filemod.cwd_pipelines_dir = self.saved
+        return False
 
 
 class StepObserver:
